@@ -3,6 +3,8 @@ package c16
 
 import (
 	"fmt"
+	"regexp"
+	"strconv"
 	"strings"
 
 	"github.com/flosch/pongo2/v6"
@@ -214,6 +216,15 @@ func errCtx() pongo2.Context {
 	}
 }
 
+var nestedPos = regexp.MustCompile(`\[Error \(where: [^)]*\) in (\S+) \| Line (\d+) Col (\d+) near '([^']*)'\]`)
+
+func headStr(s string, n int) string {
+	if len(s) > n {
+		return s[:n]
+	}
+	return s
+}
+
 type errObs struct {
 	kind string // none, compile, exec, panic
 	e    *pongo2.Error
@@ -259,6 +270,52 @@ func (c *ErrCase) Exec(t *eng.T) {
 	sender := e.Sender
 	if i := strings.IndexByte(sender, ':'); i > 0 {
 		sender = sender[:i]
+	}
+	// errors wrapped inside this one (an error raised inside a macro or a nested call travels as OrigError): each
+	// of them that carries a position is an error that carries a position
+	for in, depth := e.OrigError, 1; in != nil && depth < 6; depth++ {
+		ne, ok := in.(*pongo2.Error)
+		if !ok || ne == nil {
+			break
+		}
+		if ne.Line > 0 {
+			nsrc, nknown := c.Files[ne.Filename]
+			switch {
+			case !nknown:
+				t.Fail("nested-error:unknown-file", "%s: the error wrapped at depth %d names %q, not one of the templates involved, with line %d col %d (%s)", c.ID(), depth, ne.Filename, ne.Line, ne.Column, ob.msg)
+			case ne.Token != nil && ne.Token.Filename != "" && ne.Token.Filename != ne.Filename:
+				t.Fail("nested-error:token-from-other-file", "%s: the error wrapped at depth %d names %s at line %d col %d but carries the token %q of %s (%s)", c.ID(), depth, ne.Filename, ne.Line, ne.Column, ne.Token.Val, ne.Token.Filename, ob.msg)
+			default:
+				if off, ok := offsetOf(nsrc, ne.Line, ne.Column); !ok {
+					t.Fail("nested-error:position-outside-source", "%s: the error wrapped at depth %d points to line %d col %d of %s, outside that source (%s)", c.ID(), depth, ne.Line, ne.Column, ne.Filename, ob.msg)
+				} else if ne.Token != nil {
+					if why := spelledAt(nsrc, off, ne.Token); why != "" {
+						t.Fail("nested-error:token-not-at-position", "%s: the error wrapped at depth %d, in %s at line %d col %d: %s (%s)", c.ID(), depth, ne.Filename, ne.Line, ne.Column, why, ob.msg)
+					}
+				}
+			}
+		}
+		in = ne.OrigError
+	}
+	// positions quoted inside the message text (an inner error that travelled as text): "in FILE | Line L Col C near 'TOK'"
+	if ms := nestedPos.FindAllStringSubmatch(ob.msg, -1); len(ms) > 1 {
+		for _, m := range ms[1:] {
+			nsrc, nknown := c.Files[m[1]]
+			line, _ := strconv.Atoi(m[2])
+			col, _ := strconv.Atoi(m[3])
+			if !nknown {
+				continue // e.g. <string>; judged for the outer error only
+			}
+			off, ok := offsetOf(nsrc, line, col)
+			if !ok {
+				t.Fail("nested-message:position-outside-source", "%s: the message quotes an inner error in %s at line %d col %d, outside that source (%s)", c.ID(), m[1], line, col, ob.msg)
+				continue
+			}
+			rest := nsrc[off:]
+			if !(strings.HasPrefix(rest, m[4]) || (len(rest) > 0 && (rest[0] == '"' || rest[0] == '\'') && strings.HasPrefix(rest[1:], m[4]))) {
+				t.Fail("nested-message:token-not-at-position", "%s: the message quotes an inner error in %s at line %d col %d near %q, but that source reads %q there (%s)", c.ID(), m[1], line, col, m[4], headStr(rest, 12), ob.msg)
+			}
+		}
 	}
 	src, known := c.Files[e.Filename]
 	if !known {
@@ -519,7 +576,8 @@ func run(r *eng.Runner) {
 
 	// errors inside included / extended / imported files
 	r.Group("error-in-subtemplate", "c16.err", "a broken or failing sub-template reached by include (static, lazy), extends, import, ssi: the error must name the sub-template and point into its source")
-	broken := []string{"ok{{ }", "x\n{% if %}", "{% nosuchtag %}", "é{{ 1|nosuchfilter }}", "a\n\n{{ fail() }}", "{{ a/0 }}", "{% for %}", "{{ \"unterminated }}"}
+	broken := []string{"{% if a %}x{% elif %}y{% endif %}", "ab\n{% if a %}x{% else 1 %}y{% endif %}", "{% for i in l %}x{% empty 1 %}{% endfor %}", "\n{% ifequal a 1 %}{% else x %}{% endifequal %}", "{% for i in l %}{% endfor 1 %}", "{% block a %}{% endblock b %}", "{% with %}x{% endwith %}",
+		"ok{{ }", "x\n{% if %}", "{% nosuchtag %}", "é{{ 1|nosuchfilter }}", "a\n\n{{ fail() }}", "{{ a/0 }}", "{% for %}", "{{ \"unterminated }}"}
 	for _, bsrc := range broken {
 		for _, ref := range []string{`{% include "sub" %}`, `{% include b_sub %}`, `{% extends "sub" %}`, `{% import "sub" mac %}`, `{% ssi "sub" parsed %}`, "pre\n{% include \"sub\" %}"} {
 			files := map[string]string{"/main": ref, "/sub": bsrc}
@@ -543,6 +601,9 @@ func run(r *eng.Runner) {
 				{"/main": "{% macro mm(p) %}" + F + "{% endmacro %}\n\n{{ mm(1) }}"},
 				{"/main": "x{% include \"sub\" %}", "/sub": "{% extends \"base\" %}{% block c %}" + F + "{% endblock %}", "/base": "B[{% block c %}b{% endblock %}]"},
 				{"/main": "x{% include \"sub\" %}", "/sub": "\n{% import \"lib\" mac %}{{ mac(1) }}", "/lib": "\n\n{% macro mac(p) export %}" + F + "{% endmacro %}"},
+				// an error raised by the macro machinery itself (too many arguments) while the macro lives in another file
+				{"/main": "x\n" + lay + "{% import \"lib\" mac %}{{ mac(1, 2, 3) }}", "/lib": "\n\n {% macro mac(p) export %}" + f + "{% endmacro %}"},
+				{"/main": lay + "{% macro mm(p) %}" + f + "{% endmacro %}\n{{ mm(1, 2) }}"},
 			}
 			for _, files := range comps {
 				r.Do(&ErrCase{Files: files, Kind: "comp"})
